@@ -1,4 +1,5 @@
 """C07  Encoded arrays behave like NumPy arrays of characters."""
+import copy
 import os
 import traceback
 
@@ -27,7 +28,7 @@ ASSUMPTIONS = [
 REQUIRED_CLASSES = ["view-then-op", "empty-row", "unequal-rows", "single-row", "setitem", "concat", "compare-array", "split-join", "negative-index",
                     "empty-selection", "two-dimensional", "fancy-columns-then-ravel", "built-from-encoded-rows",
                     "str-equal-of-two-ragged-arrays", "numpy-array-function-on-flat-array",
-                    "split-on-a-list-of-letters", "join-of-encoded-rows"]
+                    "split-on-a-list-of-letters", "join-of-encoded-rows", "results-reach-later-steps-unread"]
 BOUNDS = {"quick": "1500 programs of up to 12 steps for each of 4 encodings, lists of up to 6 strings of length up to 8",
           "thorough": "12000 programs of up to 30 steps per encoding, lists of up to 12 strings of length up to 20"}
 BUDGET_S = {"quick": 200, "thorough": 1500}
@@ -79,7 +80,7 @@ def norm_index(i, n):
     return (i % (2 * n)) - n
 
 
-def run(case, on_step=None):
+def run(case, stats=None):
     import numpy as np
     import bionumpy as bnp
     from bionumpy.encoded_array import EncodedArray, EncodedRaggedArray
@@ -96,7 +97,15 @@ def run(case, on_step=None):
             reals.append(real)
             models.append(model)
             kinds.append(kind or ("bool" if not check_encoding else ("flat" if isinstance(model, str) else "ragged")))
-        got = observe(real)
+        # what is looked at is a deep copy: reading a lazy view flattens it in place, and the object that stays in the pool for
+        # later steps should reach them as the operation left it (in half of the cases; in the other half it has been read, as a user who prints it would)
+        watched = real
+        if case.get("untouched_results"):
+            try:
+                watched = copy.deepcopy(real)
+            except Exception:
+                watched = real
+        got = observe(watched)
         if model == "" and got == []:
             got = ""          # an empty array has no text either way
         if got != model:
@@ -433,6 +442,8 @@ def classify(case):
         cl.append("empty-selection")
     if "from_rows" in names:
         cl.append("built-from-encoded-rows")
+    if case.get("untouched_results") and len(prog) >= 2:
+        cl.append("results-reach-later-steps-unread")
     if case["enc"] != "ascii" and any(op["op"] == "join" and op.get("sep_k") is not None for op in prog):
         cl.append("join-of-encoded-rows")
     if any(op["op"] == "split" and op.get("seps") and not op.get("as_str") for op in prog):
@@ -451,7 +462,7 @@ def classify(case):
 
 
 def check(case, stats=None):
-    failures, _ = run(case)
+    failures, _ = run(case, stats)
     return failures[:1]
 
 
@@ -532,8 +543,9 @@ def c07_case(draw, enc, max_rows, max_len, max_steps):
         rows = [r for r in rows if r] or [draw(st.text(alphabet=alphabet, min_size=1, max_size=max_len))]
         extra = draw(st.integers(2, max(2, max_len)))
         rows = [(r * extra)[:extra] if draw(st.booleans()) else r for r in rows]
-        return {"enc": enc, "init": rows, "matrix": True, "program": draw(st.lists(op_strategy(True), min_size=1, max_size=max_steps))}
-    return {"enc": enc, "init": rows, "program": draw(st.lists(op_strategy(), min_size=1, max_size=max_steps))}
+        return {"enc": enc, "init": rows, "matrix": True, "program": draw(st.lists(op_strategy(True), min_size=1, max_size=max_steps)),
+                "untouched_results": draw(st.booleans())}
+    return {"enc": enc, "init": rows, "program": draw(st.lists(op_strategy(), min_size=1, max_size=max_steps)), "untouched_results": draw(st.booleans())}
 
 
 def task_enc(stats, known_open, enc, n, seed, max_rows, max_len, max_steps):
